@@ -52,7 +52,22 @@ def grep_forbidden() -> list[str]:
 
 
 def audit(prop: str, force: bool = False, leanchecker: bool = False) -> dict:
-    """Returns {obligations, discharged, theorems:[{name, axioms, ok}], cached, checker_cmd}."""
+    """Returns {obligations, discharged, theorems:[{name, axioms, ok}], cached, checker_cmd}.  Checks may run concurrently: building and reading the compiled
+    proofs happens under an exclusive file lock (a build by one process while another reads half-written .olean files would look like missing theorems)."""
+    import fcntl
+    AUDIT_DIR.mkdir(exist_ok=True)
+    with open(AUDIT_DIR / "lock", "w") as lk:
+        fcntl.flock(lk, fcntl.LOCK_EX)
+        try:
+            res = _audit(prop, force, leanchecker)
+            if res.get("obligations") and res.get("discharged") != res.get("obligations") and not res.get("forbidden_hits"):
+                res = _audit(prop, True, leanchecker)        # once more from a settled build before believing a missing theorem
+            return res
+        finally:
+            fcntl.flock(lk, fcntl.LOCK_UN)
+
+
+def _audit(prop: str, force: bool = False, leanchecker: bool = False) -> dict:
     ob = obligations(prop)
     names = [t["name"] for t in ob["theorems"]]
     AUDIT_DIR.mkdir(exist_ok=True)
